@@ -11,15 +11,38 @@ V3  only value binders are local variables: names bound by import / def / class 
 from __future__ import annotations
 
 import ast
-from typing import List, Optional
+from typing import List, Optional, Tuple
 
 from ..cfg import cfg_of
 from ..model import Class, Func, unparse, stmt_key, AnchorError
-from .common import Ctx, witness_path
+from .common import Ctx, witness_path, ancestors
 
 LEAF_KINDS = {"Name", "Constant", "Num", "Str", "NameConstant", "Pass", "Break", "Continue", "Global", "Nonlocal"}
 VISITORS = ["dds.introspect.IntroVisitor", "dds.introspect.ExternalVarsVisitor", "dds.introspect.LocalVarsVisitor",
             "dds._introspect_indirect.IntroVisitorIndirect"]
+
+
+LOCAL_VISITOR = "dds.introspect.LocalVarsVisitor"
+
+
+def walk_collectors(ctx: Ctx) -> List[Tuple[Func, ast.For]]:
+    """The local-variable collector written as a function: a function of the main analysis module, called by
+    `get_local_vars`, that iterates `ast.walk(<node>)` and adds names to a set (the other shape of LocalVarsVisitor)."""
+    prog = ctx.prog
+    glv = prog.funcs.get("dds.introspect.InspectFunction.get_local_vars")
+    if glv is None:
+        return []
+    out = []
+    cands = [glv]
+    for c in [x for x in glv.own_nodes() if isinstance(x, ast.Call)]:
+        fs, _ = prog.callees(glv, c, ctx._types)
+        cands += [g for g in fs if g.module is glv.module and g not in cands]
+    for g in cands:
+        for n in g.own_nodes():
+            if isinstance(n, ast.For) and isinstance(n.iter, ast.Call) and (prog.dotted(g, n.iter.func) or "") == "ast.walk" and isinstance(n.target, ast.Name):
+                if any(isinstance(x, ast.Call) and isinstance(x.func, ast.Attribute) and x.func.attr in ("add", "update", "append") for x in ast.walk(n)):
+                    out.append((g, n))
+    return out
 
 
 def visitor_classes(ctx: Ctx) -> List[Class]:
@@ -27,6 +50,8 @@ def visitor_classes(ctx: Ctx) -> List[Class]:
     for q in VISITORS:
         c = ctx.prog.classes.get(q)
         if c is None:
+            if q == LOCAL_VISITOR and walk_collectors(ctx):
+                continue  # the collector is a function over ast.walk: it visits every node by construction
             raise AnchorError(f"visitor class {q} not found")
         out.append(c)
     for c in ctx.prog.classes.values():
@@ -38,6 +63,16 @@ def visitor_classes(ctx: Ctx) -> List[Class]:
 def traversal_complete(ctx: Ctx, rule: str) -> int:
     rep = ctx.report
     n = 0
+    if ctx.prog.classes.get(LOCAL_VISITOR) is None:
+        for g, lp in walk_collectors(ctx):
+            n += 1
+            skips = [x for x in ast.walk(lp) if isinstance(x, (ast.Break, ast.Return))]
+            desc = f"{g.name} looks at every node under the statement it is given (ast.walk, nothing skipped)"
+            if skips:
+                rep.bad(rule, g.qname, desc, g.loc(skips[0]), [f"{g.loc(skips[0])}: `{type(skips[0]).__name__.lower()}` inside the walk: the nodes after / under it are not examined"],
+                        f"prune:{g.name}", what=f"{g.name} does not look at every node")
+            else:
+                rep.ok(rule, g.qname, desc, g.loc(lp))
     for c in visitor_classes(ctx):
         for name, m in c.methods.items():
             if not name.startswith("visit_"):
@@ -63,6 +98,17 @@ def sibling_pruning(ctx: Ctx, rule: str) -> int:
     rep = ctx.report
     loc = ctx.prog.classes.get("dds.introspect.LocalVarsVisitor")
     ext = ctx.prog.classes.get("dds.introspect.ExternalVarsVisitor")
+    if loc is None and ext is not None and walk_collectors(ctx):
+        g, lp = walk_collectors(ctx)[0]
+        skips = [x for x in ast.walk(lp) if isinstance(x, (ast.Break, ast.Return))]
+        desc = "the local-variable collector looks at every node the external-variable visitor descends into"
+        if skips:
+            rep.bad(rule, g.qname, desc, g.loc(skips[0]), [f"{g.loc(skips[0])}: the walk over the nodes is cut short (`{type(skips[0]).__name__.lower()}`)",
+                    "a variable assigned in a skipped node is not recorded as local, so the same name in the module is resolved and hashed"], "sibling-prune:walk",
+                    what="the local-variable collector skips nodes that the external-variable visitor visits")
+        else:
+            rep.ok(rule, g.qname, desc + " (ast.walk, no skip)", g.loc(lp))
+        return 1
     if loc is None or ext is None:
         raise AnchorError("LocalVarsVisitor / ExternalVarsVisitor not found")
 
@@ -92,15 +138,37 @@ def sibling_pruning(ctx: Ctx, rule: str) -> int:
 def only_value_binders(ctx: Ctx, rule: str) -> int:
     rep = ctx.report
     loc = ctx.prog.classes.get("dds.introspect.LocalVarsVisitor")
+    sources: List[Tuple[Func, ast.AST, str, str]] = []  # (function, recording call, node kind, label)
     if loc is None:
-        raise AnchorError("LocalVarsVisitor not found")
+        for g, lp in walk_collectors(ctx):
+            var = lp.target.id  # type: ignore
+            for x in ast.walk(lp):
+                if isinstance(x, ast.Call) and isinstance(x.func, ast.Attribute) and x.func.attr in ("add", "update") and isinstance(x.func.value, ast.Name):
+                    # the kinds of node under which the name is recorded: isinstance tests of the walked node that guard the call
+                    kinds: List[str] = []
+                    for a in ancestors(g.module, x):
+                        if a is lp:
+                            break
+                        if isinstance(a, ast.If) and any(x is y for b_ in a.body for y in ast.walk(b_)):
+                            for t in ast.walk(a.test):
+                                if isinstance(t, ast.Call) and unparse(t.func) == "isinstance" and len(t.args) == 2 and isinstance(t.args[0], ast.Name) and t.args[0].id == var:
+                                    ty = t.args[1]
+                                    kinds += [unparse(e).split(".")[-1] for e in (ty.elts if isinstance(ty, ast.Tuple) else [ty])]
+                    for k in kinds or ["?"]:
+                        sources.append((g, x, k, f"{g.name} (under isinstance(.., ast.{k}))"))
+        if not sources:
+            raise AnchorError("LocalVarsVisitor not found")
+    else:
+        for name, m in loc.methods.items():
+            for x in m.own_nodes():
+                if isinstance(x, ast.Call) and isinstance(x.func, ast.Attribute) and x.func.attr in ("add", "update") and isinstance(x.func.value, ast.Attribute) and x.func.value.attr == "vars":
+                    sources.append((m, x, name[6:] if name.startswith("visit_") else name, f"{loc.name}.{name}"))
     n = 0
-    for name, m in loc.methods.items():
-        for x in m.own_nodes():
-            if isinstance(x, ast.Call) and isinstance(x.func, ast.Attribute) and x.func.attr in ("add", "update") and isinstance(x.func.value, ast.Attribute) and x.func.value.attr == "vars":
+    if True:
+        for (m, x, kind, label) in sources:
+            if True:
                 n += 1
-                kind = name[6:] if name.startswith("visit_") else name
-                desc = f"{loc.name}.{name} records a value binder as local variable"
+                desc = f"{label} records a value binder as local variable"
                 if kind in ("Import", "ImportFrom", "FunctionDef", "AsyncFunctionDef", "ClassDef", "alias"):
                     rep.bad(rule, m.qname, desc, m.loc(x), [f"{m.loc(x)}: `{unparse(x, 60)}` in visit_{kind}",
                             "names bound by import / def / class designate modules and callables: a call through such a name (dds.eval, mod.f) is filtered as "
@@ -137,8 +205,11 @@ def body_only(ctx: Ctx, rule: str) -> int:
         for x in f.own_nodes():
             if isinstance(x, ast.Assign) and isinstance(x.value, ast.Call) and unparse(x.value.func).split(".")[-1] in names and isinstance(x.targets[0], ast.Name):
                 vis_vars.add(x.targets[0].id)
+        collectors = {g.qname for g, _lp in walk_collectors(ctx)}
         for x in f.own_nodes():
-            if isinstance(x, ast.Call) and isinstance(x.func, ast.Attribute) and x.func.attr == "visit" and isinstance(x.func.value, ast.Name) and x.func.value.id in vis_vars and x.args:
+            is_visit = isinstance(x, ast.Call) and isinstance(x.func, ast.Attribute) and x.func.attr == "visit" and isinstance(x.func.value, ast.Name) and x.func.value.id in vis_vars and x.args
+            is_collect = isinstance(x, ast.Call) and x.args and (ctx.prog.dotted(f, x.func) or "") in collectors
+            if is_visit or is_collect:
                 n += 1
                 a = x.args[0]
                 ok = False
